@@ -256,3 +256,54 @@ func directEdge(from, to *ssa.BasicBlock, pred func(ssa.Value) bool, edge int) b
 	}
 	return from.Succs[edge] == to && from.Succs[1-edge] != to
 }
+
+// c24R7: both pruning stages test the one prune query — the row-level bloom
+// expression ANDed with the regex field guard.
+func c24R7(w *World, r *Report) {
+	const rule = "C24.R7"
+	r.rule(rule, "one prune query for both stages: the bloom query given to the file-level evaluateBloomFilters and to evaluateBlockFilters is the result of AndBloomQueries(row bloom query, RegexFieldGuardBloomQuery(query.Regex)) — the block stage does not test less than the file stage", 3)
+	q := fnOrUndecided(w, r, rule, "BloomSearchEngine.Query")
+	if q == nil {
+		return
+	}
+	n := 0
+	for _, s := range w.callSites("BloomSearchEngine.evaluateBlockFilters", "BloomSearchEngine.evaluateBloomFilters") {
+		if outermost(s.Fn) != q {
+			continue
+		}
+		c := callOf(s.Instr)
+		callee := w.calleeName(c)
+		var arg ssa.Value
+		for _, a := range c.Args {
+			if w.typeName(a.Type()) == "*BloomQuery" {
+				arg = a
+			}
+		}
+		if arg == nil {
+			continue
+		}
+		n++
+		p := w.path(arg)
+		okc := strings.HasPrefix(p, "call:AndBloomQueries@")
+		r.check(okc, rule, "prune-query@"+callee, w.instrPos(s.Instr), "AndBloomQueries(row query, regex guard)", callee+" is given "+p+" instead of the combined prune query: one pruning stage ignores the regex field guard (or the bloom conditions), so blocks the filters rule out are still read")
+	}
+	for _, in := range w.callSitesIn(q, "AndBloomQueries") {
+		c := callOf(in)
+		n++
+		guard := false
+		if gc, ok := c.Args[1].(*ssa.Call); ok && w.isCallTo(&gc.Call, "RegexFieldGuardBloomQuery") && strings.HasSuffix(w.path(gc.Call.Args[0]), "query.Regex") {
+			guard = true
+		}
+		// the first operand is the very row-level query the matcher is compiled from
+		same := false
+		for _, m := range w.callSitesIn(q, "compileRowMatcher") {
+			if callOf(m).Args[0] == c.Args[0] {
+				same = true
+			}
+		}
+		r.check(guard && same, rule, "prune-query:definition", w.instrPos(in), "row bloom query AND regex field guard", "the prune query is no longer the row-level bloom query ANDed with the regex field guard of query.Regex")
+	}
+	if n < 3 {
+		r.undecided(rule, "anchors", "-", fmt.Sprintf("expected the file-level test, the block filter pass and the prune query's definition, found %d sites", n))
+	}
+}
